@@ -709,3 +709,125 @@ pub mod iotap {
         }
     }
 }
+
+/// Yield injection: the harness installs a seeded decision function; lock and latch acquisitions call
+/// it first, so that a run can be perturbed into other interleavings.
+static YIELD_SEED: std::sync::atomic::AtomicU64 = std::sync::atomic::AtomicU64::new(0);
+
+/// 0 switches yield injection off.
+pub fn set_yield_seed(seed: u64) {
+    YIELD_SEED.store(seed, std::sync::atomic::Ordering::SeqCst);
+}
+
+#[inline]
+pub fn yield_point() {
+    use std::sync::atomic::Ordering;
+    let s = YIELD_SEED.load(Ordering::Relaxed);
+    if s == 0 {
+        return;
+    }
+    // xorshift on the shared state: which thread yields where depends on the seed and on the race itself
+    let mut x = s;
+    x ^= x << 13;
+    x ^= x >> 7;
+    x ^= x << 17;
+    if x == 0 {
+        x = 0x9E3779B97F4A7C15;
+    }
+    YIELD_SEED.store(x, Ordering::Relaxed);
+    match x % 16 {
+        0 | 1 | 2 => std::thread::yield_now(),
+        3 => std::thread::sleep(std::time::Duration::from_micros(x % 200)),
+        _ => {}
+    }
+}
+
+/// Lock tap: per-thread sequences of acquisitions and releases of the pager lock and of page latches.
+pub mod locktap {
+    use std::cell::Cell;
+    use std::ops::{Deref, DerefMut};
+    use std::sync::Mutex;
+    use std::sync::atomic::{AtomicU64, Ordering};
+
+    /// object 0 is the pager lock, object p + 1 the latch of page p
+    #[derive(Debug, Clone, Copy)]
+    pub struct Event {
+        pub thread: u64,
+        pub acquire: bool,
+        pub object: u64,
+        pub exclusive: bool,
+    }
+
+    static SINK: Mutex<Option<Vec<Event>>> = Mutex::new(None);
+    static NEXT_THREAD: AtomicU64 = AtomicU64::new(1);
+    thread_local! { static THREAD: Cell<u64> = const { Cell::new(0) }; }
+
+    fn thread_id() -> u64 {
+        THREAD.with(|t| {
+            if t.get() == 0 {
+                t.set(NEXT_THREAD.fetch_add(1, Ordering::SeqCst));
+            }
+            t.get()
+        })
+    }
+
+    pub fn start() {
+        *SINK.lock().unwrap_or_else(|e| e.into_inner()) = Some(Vec::new());
+    }
+
+    pub fn stop() -> Vec<Event> {
+        SINK.lock().unwrap_or_else(|e| e.into_inner()).take().unwrap_or_default()
+    }
+
+    fn record(acquire: bool, object: u64, exclusive: bool) {
+        if let Some(v) = SINK.lock().unwrap_or_else(|e| e.into_inner()).as_mut() {
+            v.push(Event { thread: thread_id(), acquire, object, exclusive });
+        }
+    }
+
+    /// Token stored next to a guard: created right after the acquisition, reports the release when dropped.
+    #[derive(Debug)]
+    pub struct Held {
+        object: u64,
+        exclusive: bool,
+    }
+
+    impl Held {
+        pub(crate) fn page(page: u64, exclusive: bool) -> Self {
+            record(true, page + 1, exclusive);
+            Held { object: page + 1, exclusive }
+        }
+    }
+
+    impl Drop for Held {
+        fn drop(&mut self) {
+            record(false, self.object, self.exclusive);
+        }
+    }
+
+    /// A guard of the pager lock together with its tap token.
+    pub struct Tapped<G> {
+        guard: G,
+        _held: Held,
+    }
+
+    impl<G> Tapped<G> {
+        pub fn shared(guard: G, exclusive: bool) -> Self {
+            record(true, 0, exclusive);
+            Tapped { guard, _held: Held { object: 0, exclusive } }
+        }
+    }
+
+    impl<G: Deref> Deref for Tapped<G> {
+        type Target = G::Target;
+        fn deref(&self) -> &Self::Target {
+            &self.guard
+        }
+    }
+
+    impl<G: DerefMut> DerefMut for Tapped<G> {
+        fn deref_mut(&mut self) -> &mut Self::Target {
+            &mut self.guard
+        }
+    }
+}
